@@ -487,9 +487,9 @@ def registry_defs():
     return out
 
 
-def make_ctx(d, assignment, extras, explicit):
+def make_ctx(d, assignment, extras, explicit, base=None):
     """child context holding the values as variables; returns (ctx, {param name: argument text})"""
-    ctx = d.ctx.create_child_context()
+    ctx = (base if base is not None else d.ctx).create_child_context()
     texts = {}
     n = 0
     for p in d.bound:
@@ -740,7 +740,105 @@ def oracle(run, deep):
         swept += 1 if done else 0
     run.count("sweep:definitions", swept)
     run.note("registry sweep: %d definitions, %d swept" % (len(defs), swept))
+    composite_check(run, defs)
     convention_check(run)
+
+
+# ---- the standard library hosted in composite context shapes ------------------------------------------
+def _own_stack(rng, depth):
+    """a context stack of the host application (no functions of its own), with or without parents"""
+    from yaql.language import contexts
+    c = contexts.Context()
+    for _ in range(depth):
+        c = c.create_child_context()
+    return c
+
+
+def composite_host(rng, lib, depth):
+    """a context built from the grammar
+         S ::= lib | child(S) | Multi([own, S]) | Multi([S, own]) | Linked(own, S) | Multi([Linked(own, S), Linked(own', S)])
+       (own: an empty application stack of 0-2 levels).  -> (description, context)"""
+    from yaql.language import contexts
+    if depth == 0:
+        return "lib", lib
+    d, s = composite_host(rng, lib, depth - 1)
+    r = rng.randrange(6)
+    k = rng.randrange(3)
+    if r == 0:
+        return "child(%s)" % d, s.create_child_context()
+    if r == 1:
+        return "Multi([own%d, %s])" % (k, d), contexts.MultiContext([_own_stack(rng, k), s])
+    if r == 2:
+        return "Multi([%s, own%d])" % (d, k), contexts.MultiContext([s, _own_stack(rng, k)])
+    if r == 3:
+        return "Linked(own%d, %s)" % (k, d), contexts.LinkedContext(_own_stack(rng, k), s)
+    if r == 4:
+        k2 = rng.randrange(3)
+        return ("Multi([Linked(own%d, %s), Linked(own%d, same)])" % (k, d, k2),
+                contexts.MultiContext([contexts.LinkedContext(_own_stack(rng, k), s), contexts.LinkedContext(_own_stack(rng, k2), s)]))
+    return "Multi([own%d, child(%s)])" % (k, d), contexts.MultiContext([_own_stack(rng, k), s.create_child_context()])
+
+
+def host_forms(d, assignment, extras, host):
+    """the all-positional function form and method form of one call, evaluated with `host` as the library"""
+    out = []
+    fd = d.fd
+    ctx, texts, etexts = make_ctx(d, assignment, extras, (), base=host)
+    pos = [texts.get(p.name) for p in d.vis]
+    while pos and pos[-1] is None:
+        pos.pop()
+    if any(t is None for t in pos) or any(p.name in texts for p in d.kwonly):
+        return out
+    try:
+        fargs = parse_args(", ".join(pos + etexts))
+        out.append(("as function", evaluate(expressions.Function(fd.name, *fargs), ctx)))
+        if pos and fd.name != "#operator_.":
+            margs = parse_args(", ".join(pos[1:] + etexts))
+            expr = expressions.BinaryOperator(".", parse_args(pos[0])[0], expressions.Function(fd.name, *margs), None)
+            ctx2, _, _ = make_ctx(d, assignment, extras, (), base=host)
+            out.append(("as method", evaluate(expr, ctx2)))
+    except NotExpressible:
+        pass
+    return out
+
+
+def composite_check(run, defs):
+    """calls of standard-library names - in function form AND in method form, whatever the kind of the definition -
+    must resolve on a composite host exactly as on the plain yaql.create_context()"""
+    rng = run.rng
+    plain = yaql.create_context()
+    usable = [d for d in defs if d.supported]
+    shapes = []
+    for depth in (1, 1, 1, 1, 2, 2, 2, 3) + ((2, 3, 3, 3) if not run.quick else ()):
+        shapes.append(composite_host(rng, yaql.create_context(), depth))
+    per_shape = run.n(40, 250)
+    for desc, host in shapes:
+        run.count("composite:shapes")
+        for d in rng.sample(usable, min(per_shape, len(usable))):
+            g = gen_sweep_assignment(rng, d, set())
+            if g is None:
+                continue
+            ref = host_forms(d, g[0], g[1], plain)
+            again = host_forms(d, g[0], g[1], plain)
+            if ref != again or any(r == ["timeout"] for _, r in ref):
+                continue
+            got = host_forms(d, g[0], g[1], host)
+            run.count("composite:evaluations", len(got))
+            for (l1, r1), (l2, r2) in zip(ref, got):
+                if r2 == ["timeout"]:
+                    continue
+                if outcome_class(r1) != outcome_class(r2) or (r1[0] == "ok" and r1 != r2):
+                    kind = "method-only" if fd_kind(d.fd) == "method" else "function-only" if fd_kind(d.fd) == "function" else "extension"
+                    run.fail("violation", "a standard-library call resolves differently when the library is reached through a composite "
+                                          "context (MultiContext / LinkedContext) than on the plain context, %s" % l1,
+                             {"function": d.fd.name, "registry_index": d.index, "definition_kind": kind, "host_shape": desc,
+                              "assignment": g[0], "extras": g[1], "form": l1, "outcome_plain": r1, "outcome_composite": r2,
+                              "required": "the same result or error class as on yaql.create_context()"})
+                    break
+
+
+def fd_kind(fd):
+    return "extension" if fd.is_function and fd.is_method else "method" if fd.is_method else "function"
 
 
 def convention_check(run):
@@ -770,6 +868,10 @@ def convention_check(run):
 
 def replay(run, data):
     d = data["data"]
+    if "host_shape" in d:
+        before = len(run.failures)
+        composite_check(run, registry_defs())
+        return len(run.failures) == before
     if "registry_index" in d and "assignment" in d:
         defs = registry_defs()
         cand = [x for x in defs if x.index == d["registry_index"] and x.fd.name == d["function"]]
